@@ -242,7 +242,9 @@ def r07_4(ctx: Ctx, rep: Report) -> None:
         keys &= {"input", "output"}
         if not keys:
             continue
-        for c, lab in cfg.transitive_control_deps(n):
+        # direct control dependence: the transitive closure runs through the loop's back edge (an iteration happens
+        # only if the previous one did not raise) and would attribute every store to every direction
+        for c, lab in cfg.control_deps(n):
             if c.kind == "cond" and isinstance(c.ast, ast.Compare) and isinstance(c.ast.ops[0], ast.Eq) and isinstance(c.ast.comparators[0], ast.Constant) and lab == "T" and "direction" in src(c.ast.left):
                 pairs.setdefault(c.ast.comparators[0].value, set()).update(keys)
     rep.instance()
@@ -286,6 +288,8 @@ def r07_4(ctx: Ctx, rep: Report) -> None:
     for n in own_nodes(pa.node):
         if isinstance(n, ast.Call) and src(n.func) == "dict":
             keys |= {k.arg for k in n.keywords if k.arg}
+        elif isinstance(n, ast.Dict):
+            keys |= {k.value for k in n.keys if isinstance(k, ast.Constant) and isinstance(k.value, str)}
     miss = sorted(k for k in keys if k not in co)
     if {"input", "output", "line", "name", "platform"} <= keys and not miss:
         rep.ok("ConfigParser.acls -> Acl(**d)", f"keys {sorted(keys)} are all read by the Acl constructor", where=where(pa))
